@@ -63,7 +63,7 @@ Print Assumptions C17_session_result.
 Theorem C17_concurrent_reply_is_handler_reply : forall c O sched ls0 cl d,
   init_ok ls0 ->
   (budget (ls0 cl) <= count_occ Nat.eq_dec sched cl)%nat ->
-  Vmd.alive d = true ->
+  Vmd.alive d = true -> sigign d = c_ignores_sigpipe c ->
   l_out (snd (run (handler_reply c O) sched (shared0, ls0)) cl) =
   fst (client_thread c O (request (l_kind (ls0 cl)) (l_blob (ls0 cl))) None d).
 Proof. exact concurrent_reply_is_handler_reply. Qed.
@@ -88,20 +88,41 @@ Print Assumptions C17_active_zero_when_done.
    _partial: the VM run itself is an oracle shared by both sides (o_run: the chunks handed to the output stream, the
    error text); that the daemon's VM produces the same chunks as the standalone VM is what the live correspondence checks.
    Stated for modules that standalone accepts (deserialises and verifies). *)
-Theorem C17_daemon_transparent_partial : forall c O blob d o,
+Theorem C17_daemon_transparent_partial : forall c sm O blob d o,
   Vmd.alive d = true ->
   bytes_ok blob -> blob <> [] -> N.of_nat (length blob) <= VMD_MAX_PAYLOAD ->
   wf_run (o_run O blob) ->
-  standalone_observe O blob = Some o ->
+  c_exit_from_main c = sm ->            (* both sides treat main's int result alike *)
+  standalone_observe sm O blob = Some o ->
   client_observe (fst (client_thread c O (load_exec_request blob) None d)) = o.
 Proof. exact daemon_transparent. Qed.
 Print Assumptions C17_daemon_transparent_partial.
 
-(* refuted for modules that nvm_verify refuses while the handler does not verify (the tree of today, see VmdFacts):
+(* the daemon of today (facts regenerated from the tree): transparent when client_thread and run_standalone agree on turning
+   main's int result into the exit status; refuted with a witness (main returns 3) when only run_standalone does *)
+Theorem C17_daemon_transparent_current :
+  (vmd_exit_from_main = standalone_exit_from_main ->
+     forall O blob d o, Vmd.alive d = true -> bytes_ok blob -> blob <> [] -> N.of_nat (length blob) <= VMD_MAX_PAYLOAD ->
+       wf_run (o_run O blob) -> standalone_observe standalone_exit_from_main O blob = Some o ->
+       client_observe (fst (client_thread real_cfg O (load_exec_request blob) None d)) = o) /\
+  (vmd_exit_from_main = false -> standalone_exit_from_main = true ->
+     exists O blob o, standalone_observe standalone_exit_from_main O blob = Some o /\
+       client_observe (fst (client_thread real_cfg O (load_exec_request blob) None (boot real_cfg))) <> o).
+Proof. exact daemon_transparent_current. Qed.
+Print Assumptions C17_daemon_transparent_current.
+
+Theorem C17_exit_status_dropped_refuted : forall c, c_exit_from_main c = false ->
+  standalone_observe true status_oracle [0] = Some {| o_stdout := [104; 105; 10]; o_stderr := []; o_exit := 3 |} /\
+  client_observe (fst (client_thread c status_oracle (load_exec_request [0]) None (boot c))) =
+    {| o_stdout := [104; 105; 10]; o_stderr := []; o_exit := 0 |}.
+Proof. exact exit_status_dropped. Qed.
+Print Assumptions C17_exit_status_dropped_refuted.
+
+(* refuted for modules that nvm_verify refuses while the handler does not verify:
    standalone refuses, the daemon runs the module and reports exit 0 *)
-Theorem C17_unverified_module_runs_refuted : forall c, c_verify_first c = false ->
-  standalone_observe sloppy_oracle [0] = None /\
-  client_observe (fst (client_thread c sloppy_oracle (load_exec_request [0]) None d0)) =
+Theorem C17_unverified_module_runs_refuted : forall c sm, c_verify_first c = false ->
+  standalone_observe sm sloppy_oracle [0] = None /\
+  client_observe (fst (client_thread c sloppy_oracle (load_exec_request [0]) None (boot c))) =
     {| o_stdout := [104; 105; 10]; o_stderr := []; o_exit := 0 |}.
 Proof. exact unverified_module_runs. Qed.
 Print Assumptions C17_unverified_module_runs_refuted.
@@ -109,10 +130,17 @@ Print Assumptions C17_unverified_module_runs_refuted.
 (* with verification in the handler the client is shown the refusal and exit 1, as standalone does *)
 Theorem C17_verified_module_refused : forall c msg, c_verify_first c = true ->
   client_observe (fst (client_thread c {| o_deser := fun _ => true; o_verify := fun _ => Some msg; o_run := fun _ => Crashed [] |}
-                                      (load_exec_request [0]) None d0)) =
+                                      (load_exec_request [0]) None (boot c))) =
   client_observe (encode_frame (error_frame (txt_verify_failed ++ msg)) ++ encode_frame (exit_frame 1)).
 Proof. exact verified_module_refused. Qed.
 Print Assumptions C17_verified_module_refused.
+
+(* the client side of a session puts no time limit on its blocking reads/writes (no SO_RCVTIMEO/SO_SNDTIMEO, alarm, poll/select in
+   vmd_client.c, the read/write helpers of vmd_protocol.c, run_daemon): client_observe is a function of the reply bytes alone, so a
+   program that stays silent for any length of time is observed like standalone.  Breaks when such a call appears. *)
+Theorem C17_client_waits_indefinitely : vmd_client_has_timeout = false.
+Proof. vm_compute. reflexivity. Qed.
+Print Assumptions C17_client_waits_indefinitely.
 
 (* standalone nano_vm verifies before executing (the side the daemon is compared with) *)
 Theorem C17_standalone_verifies : standalone_verifies = true.
